@@ -56,8 +56,8 @@ PATTERNS = [
     ("-1", "lit-neg", lambda v: is_int(v) and v == -1),
     ('"a"', "lit-str", lambda v: v == "a"),
     ('"b"', "lit-str", lambda v: v == "b"),
-    ("True", "lit-bool", lambda v: v is True),
-    ("False", "lit-bool", lambda v: v is False),
+    ("True", "lit-bool", lambda v: is_int(v) and v == 1),   # a literal arm is an `==` test and Bool <: Nat: True == 1
+    ("False", "lit-bool", lambda v: is_int(v) and v == 0),
     ("(i: Int)", "typed:Int", lambda v: is_int(v)),
     ("(n: Nat)", "typed:Nat", lambda v: is_int(v) and v >= 0),
     ("(s: Str)", "typed:Str", lambda v: isinstance(v, str)),
@@ -89,10 +89,38 @@ def union_shape(arms):
     return "+".join(sorted(set(KIND_INFO[PAT[a][1]][0] for a in arms)))
 
 
-def excluding_kinds(arms, v):
-    """kinds of the arms whose pattern class does not contain the value (only such a test can fail to evaluate)"""
+TRUE_COVERS = {"Nat", "Int", "Int|Str", "Obj", "Bool", "Str"}   # class components whose run-time test is an isinstance of that very class
+
+
+def no_arm_cause(arms, v):
+    """structural class of an accepted arm list none of whose arms matches v:
+    - has-cover:<shape>   some arm is a plain class that contains the value (such an arm must match: always a new, narrow key)
+    - float-arm           the only class that contains the (integer) value is Float (Nat <: Int <: Float for the checker)
+    - refinement+unrelated-class   refinement arms over the value's class that do not contain it, next to a class that cannot contain it
+    - other:<shape>"""
     vc = value_class(v)
-    return "+".join(sorted(set(PAT[a][1] for a in arms if KIND_INFO[PAT[a][1]][1] not in INSTANCE_OF[vc]))) or "none"
+    comps = set(KIND_INFO[PAT[a][1]][0] for a in arms)
+    containing = {c for c in comps if c in INSTANCE_OF[vc]}
+    if containing & TRUE_COVERS:
+        return "has-cover:" + union_shape(arms)
+    if "Float" in containing:
+        return "float-arm"
+    refin = {c for c in comps if ":" in c and c.split(":")[1] in INSTANCE_OF[vc]}
+    unrelated = {c for c in comps if ":" not in c and c not in INSTANCE_OF[vc]}
+    if refin and unrelated:
+        return "refinement+unrelated-class"
+    return "other:" + union_shape(arms)
+
+
+def excluding_kinds(arms, v):
+    """kinds of the arms whose pattern class does not contain the value (only such a test can fail to evaluate), in arm order"""
+    vc = value_class(v)
+    out = []
+    for a in arms:
+        k = PAT[a][1]
+        if KIND_INFO[k][1] not in INSTANCE_OF[vc] and k not in out:
+            out.append(k)
+    return out or ["none"]
 
 # quick tier: arm lists of length 3 only over the six patterns most relevant to the type
 RELEVANT = {
@@ -296,15 +324,17 @@ def run(chk):
                     agree["run-raises"] += 1
                     pt["raises"] += 1
                     # which pattern kinds can raise: the arms before (and including) the first one the reading says matches
-                    upto = arms if ref_arm is None else arms[:ref_arm + 1]
-                    key = f"match-raises:{gr[1]}:{ty}:{value_class(v)}:{excluding_kinds(upto, v)}"
+                    # only an arm whose class excludes the value can fail to evaluate; the case is attributed to the first such arm
+                    # (in arm order) that is a listed finding, else to the first one
+                    cands = [f"match-raises:{gr[1]}:{ty}:{value_class(v)}:{k}" for k in excluding_kinds(arms, v)]
+                    key = next((k for k in cands if k in chk.known), cands[0])
                     chk.violation(key, witness, f"`f x: {ty} = match x: {' | '.join(arms)}` accepted, but matching {erg_val(v)} raises {gr[1]}: {gr[2]} (f: {fr})")
                     continue
                 no_arm = gr[1] == "NOARM"
                 if no_arm:
                     pt["no_arm"] += 1
                     agree["both-no-arm" if ref_arm is None else "run-no-arm/reading-some-arm"] += 1
-                    key = f"no-arm:{ty}:{value_class(v)}:{union_shape(arms)}"
+                    key = f"no-arm:{ty}:{value_class(v)}:{no_arm_cause(arms, v)}"
                     chk.violation(key, witness, f"`f x: {ty} = match x: {' | '.join(arms)}` accepted, but no arm matches {erg_val(v)} at run time (f({erg_val(v)}) gives {fr[1:]})")
                     continue
                 agree["both-some-arm" if ref_arm is not None else "run-some-arm/reading-no-arm"] += 1
@@ -322,7 +352,7 @@ def run(chk):
                     other_exc[fr[1]] = other_exc.get(fr[1], 0) + 1
                 if ref_arm is None:
                     pt["no_arm"] += 1
-                    key = f"no-arm(reading):{ty}:{value_class(v)}:{union_shape(arms)}"
+                    key = f"no-arm(reading):{ty}:{value_class(v)}:{no_arm_cause(arms, v)}"
                     chk.violation(key, witness, f"`f x: {ty} = match x: {' | '.join(arms)}` accepted, but no arm matches {erg_val(v)} by the reading of the patterns (f gives {fr[1:]})")
         if len(samples) < 4 and i % 397 == 5:
             samples.append({"erg": prog_full(ty, arms, window), "outcomes": got})
